@@ -644,7 +644,7 @@ func init() {
 		Rule: "scripts of append calls (AddParagraph/Formatted/Heading(+bookmark)/Table/PageBreak/Image/ListItem/Footnote/MathFormula/GenerateTOC, every text carrying a unique tag), removals by handle (live, already removed, foreign document, cell paragraph, nil), by paragraph index and element index in {-2..len+1}, " +
 			"interleaved with page-setting and header/footer calls; after EVERY call the body is compared with the reference list (prefix preserved + new suffix for appends, exactly-one-removed or unchanged+false for removals, content untouched for settings calls), and at random points GetParagraphs/GetTables are compared with the element list and the children of w:body in the saved main part are compared (same order, exactly one w:sectPr, last, iff section settings exist). " +
 			"Non-trivial: >=5 calls of >=3 kinds; distinct = distinct call sequence.",
-		Cases:         func(t string) int { return tierN(t, 1500, 60000) },
+		Cases:         func(t string) int { return tierN(t, 8000, 60000) },
 		Run:           c08Case,
 		Assume:        []string{"the in-memory position of the SectionProperties element is not constrained, only its serialised position"},
 		CaseTimeoutS:  60,
